@@ -195,7 +195,7 @@ print(json.dumps({"version": packaging.__version__, "out": out}))
 
 
 def _normal_is_big(normal):
-    """the normalised form has an epoch above 255 or a release number >= 2^63-1 (F-C02-3)"""
+    """the normalised form has an epoch above 255 or a release number >= 2^63-1 (F-C02-21)"""
     s = normal
     ep = 0
     if b"!" in s:
@@ -275,7 +275,7 @@ def c02(ctx):
                     width = bool(spec[i][5]) and bool(spec[j][5])
                     fid = None
                     if mc != sc and not indom:
-                        fid = "F-C02-2" if width else "F-C02-4"
+                        fid = "F-C02-2" if width else "F-C02-22"
                     _hit(ctx, known, fid,
                          "PyPI: ordering differs from PEP 440 (packaging)" + ("" if not indom else " inside the domain of C02_pypi_partial"),
                          {"system": "PyPI", "a": pool[i], "b": pool[j]}, observed=gc, required=sc)
@@ -288,7 +288,7 @@ def c02(ctx):
     for s, line in zip(nl, outs):
         if not line.startswith('("ok"'):
             big = _normal_is_big(s)
-            _hit(ctx, known, "F-C02-3" if big else None,
+            _hit(ctx, known, "F-C02-21" if big else None,
                  "PyPI: a version in packaging's normalised form is rejected by Parse",
                  {"system": "PyPI", "string": s, "normal form of": normals[s]}, observed="err", required="accepted")
     _packaging(ctx, all_strs, all_spec)
@@ -344,7 +344,7 @@ def c10(ctx):
         if cv != canon1:
             ctx.violation("pypi.CanonVersion differs from Canon(true) of the parsed version", {"string": s}, observed=cv, required=canon1)
         wild = -1 in _dump[4][:-1]
-        fid = None if indom else ("F-C10-2" if wild else "F-C10-3")
+        fid = None if indom else ("F-C10-21" if wild else "F-C10-22")
         if re[0] != b"ok":
             _hit(ctx, known, fid, "PyPI: the canonical string does not parse", {"system": "PyPI", "string": s, "canon": canon1},
                  observed="err", required="parses")
@@ -368,7 +368,7 @@ def c10(ctx):
     for (a, b, canon1), line in zip(meta, ctx.impl("sv_syscompare", args)):
         if line != "0":
             indom = a[1] and b[1]
-            fid = None if indom else ("F-C10-2" if (a[2] or b[2]) else "F-C10-3")
+            fid = None if indom else ("F-C10-21" if (a[2] or b[2]) else "F-C10-22")
             _hit(ctx, known, fid, "PyPI: two versions with the same canonical string do not compare equal",
                  {"system": "PyPI", "a": a[0], "b": b[0], "canon": canon1}, observed=int(line), required=0)
     _replay_known(ctx, known)
